@@ -12542,6 +12542,7 @@ int cg_gravity_write(int fn, int B, float const *gravity_vector)
     }
     gravity = base->gravity;
     gravity->vector = CGNS_NEW(cgns_array, 1);
+    gravity->narrays = 1;
 
      /* initialize other fields of gravity */
     strcpy(gravity->name, "Gravity");
